@@ -339,11 +339,20 @@ func wantsToBeReceived(r *pool.Message) bool {
 }
 
 func (b *BlockWise[C]) getSendingMessageCode(token uint64) (codes.Code, bool) {
-	v := b.sendingMessagesCache.Load(token)
-	if v == nil {
-		return codes.Empty, false
-	}
-	return v.Data().Code(), true
+	// The message of the entry is the request of the caller of Do: it is read under the read lock of the cache,
+	// which Do's deferred Delete has to wait for. After Do has returned the request belongs to the caller, who
+	// may release it at once.
+	code := codes.Empty
+	exist := false
+	now := time.Now()
+	b.sendingMessagesCache.LoadWithFunc(token, func(v *cache.Element[*pool.Message]) *cache.Element[*pool.Message] {
+		if v != nil && !v.IsExpired(now) {
+			code = v.Data().Code()
+			exist = true
+		}
+		return v
+	})
+	return code, exist
 }
 
 // Handle middleware which constructs COAP request from blockwise transfer and send COAP response via blockwise.
